@@ -106,3 +106,32 @@ Definition run_flatten (x : list (list N) * list N * bool * nat) : result (list 
   else flatten1 dfs labels.
 Definition nn_eqb (a b : N * N) : bool := N.eqb (fst a) (fst b) && N.eqb (snd a) (snd b).
 Definition bad_flatten := report run_flatten (result_eqb (list_eqb nn_eqb)).
+
+(* ------------------------------------------------------------------------------------------ *)
+From Coq Require Import String.   (* after everything that uses List.length *)
+
+(* the columns by NAME: a column is a sample column iff its name starts with "sample_" (col.startswith('sample_')),
+   not merely contains it; payload = the column's values *)
+Definition is_sample_name (s : string) : bool := String.prefix "sample_" s.
+Definition tag_cols {C} (cols : list (string * C)) : list (bool * (string * C)) :=
+  map (fun c => (is_sample_name (fst c), c)) cols.
+Definition split_named {C} (cols : list (string * C)) : list (string * C) * list (string * C) :=
+  (map snd (fst (split_samples (tag_cols cols))), map snd (snd (split_samples (tag_cols cols)))).
+Definition drop_named {C} (cols : list (string * C)) : list (string * C) := map snd (drop_samples (tag_cols cols)).
+
+(* split / drop by column name; payload = column id.  The implementation's results arrive as options (None = the
+   call raised): drop must succeed and agree; split is compared only when the table has a sample column (without one
+   pandas refuses to concatenate nothing, which the property does not cover). *)
+Definition run_split (x : list (string * N)) : list N * (list N * list N) :=
+  (map snd (drop_named x), (map snd (fst (split_named x)), map snd (snd (split_named x)))).
+Definition eq_split (x : list (string * N)) (o : option (list N) * option (list N * list N)) : bool :=
+  let m := run_split x in
+  match fst o with Some d => list_eqb N.eqb (fst m) d | None => false end &&
+  (negb (existsb (fun c => is_sample_name (fst c)) x) ||
+   match snd o with
+   | Some (f, s) => list_eqb N.eqb (fst (snd m)) f && list_eqb N.eqb (snd (snd m)) s
+   | None => false
+   end).
+Definition bad_split (cases : list (N * list (string * N) * (option (list N) * option (list N * list N)))) : N * list N :=
+  (N.of_nat (List.length cases),
+   map (fun c => fst (fst c)) (filter (fun c => negb (eq_split (snd (fst c)) (snd c))) cases)).
